@@ -182,11 +182,18 @@ def lean_for(lean, ns):
     """the build result as it concerns the property whose theorem namespaces are `ns`: after a failed build whose
     rejected proofs could be isolated (`attribute_lean_failure`), a property has lost an obligation only if one of
     its own theorems depends on a rejected proof"""
+    soft = [x for x in lean.get("soft_refused", []) if set(x["props"]) & set(ns)]
+    if soft:
+        # a constant section this property rests on was not re-translated from the source: an obligation is open
+        lean = dict(lean, ok=False, broken=list(lean["broken"]) + [dict(file="tools/translate.py", line=0, decl="section " + x["section"],
+                    msg="not recognised in the source (values of the last recognised extraction used): " + x["msg"]) for x in soft])
+        if not lean.get("attributed"):
+            return lean
     if lean["ok"] or not lean.get("attributed") or lean["forbidden"] or lean["translate"] != "ok":
         return lean
     own = [n for n in ns if n != "Tables"]
     mine = [t for t in lean["depends_on_rejected"] if any(t.startswith("PFV.%s." % n) for n in own)]
-    if not mine:
+    if not mine and not soft:
         return dict(lean, ok=True, broken=[], note="proofs rejected elsewhere (%s) do not reach this property's theorems" % ", ".join(lean["rejected_proofs"][:4]))
     return dict(lean, broken=[b for b in lean["broken"] if b.get("file") != "PFV/Audit.lean"] +
                 [dict(file="PFV/Properties.lean", line=0, decl=t, msg="depends on a rejected proof: " + ", ".join(lean["rejected_proofs"][:4])) for t in mine])
@@ -212,6 +219,13 @@ def build_lean():
             res["tables_fallback_error"] = str(e)[:200]
     # refusals of the translator's syntactic C14 section concern C14 only (reported there, not here)
     res["heap_refused"] = [l.split("C14-REFUSED:", 1)[1].strip() for l in (err or "").split("\n") if "C14-REFUSED:" in l]
+    # sections of constants the translator did not recognise and filled from its cache: they concern the listed
+    # properties only (which then rest on the correspondence streams alone)
+    res["soft_refused"] = []
+    for l in (err or "").split("\n"):
+        m = re.search(r"SOFT-REFUSED: (\w+): props=([\w,]+): (.*)", l)
+        if m:
+            res["soft_refused"].append(dict(section=m.group(1), props=m.group(2).split(","), msg=m.group(3)[:300]))
     if rc != 0:
         res["ok"] = False
         res["translate"] = (err or out).strip()
